@@ -410,7 +410,7 @@ func classify(l *layout, recs []rec, fl *failure, wantWhat bool) (key, what stri
 			}
 		}
 		if fl.target == tHdrs {
-			f = "count=" + f + ",key=" + l.hk.label() + ",value=" + l.hv.label()
+			return "field-mismatch:headers", "the headers read back differ from the headers written (count " + f + ", key size " + l.hk.label() + ", value size " + l.hv.label() + ")"
 		}
 		return "field-mismatch:" + targetNames[fl.target] + ":" + f, "the record read back differs from the record written in field " + targetNames[fl.target]
 	}
